@@ -93,7 +93,7 @@ type c05Req struct {
 	Role   string // value of the third constrained header (kind header2)
 }
 
-var c05Kinds = []string{"static", "optional-short", "optional-long", "placeholder", "regex", "matchall-capture", "final-matchall", "header", "any", "panic", "notfound", "render-json", "render-xml", "render-text", "query-cookie", "static-file", "static-file-2", "grouped", "notfound-after-capture", "header2", "static-file-big"}
+var c05Kinds = []string{"static", "optional-short", "optional-long", "placeholder", "regex", "matchall-capture", "final-matchall", "header", "any", "panic", "notfound", "render-json", "render-xml", "render-text", "query-cookie", "static-file", "static-file-2", "grouped", "notfound-after-capture", "header2", "static-file-big", "silent", "redirect"}
 
 // c05Dir holds the file served by the Static middleware of the shared instance.
 var c05Dir string
@@ -167,6 +167,10 @@ func c05MakeReq(kind, tok string, rng *rand.Rand) c05Req {
 		r.Role = []string{"admin", "admin", "guest"}[rng.Intn(3)]
 	case "grouped":
 		r.Path = "/g1/" + pt + "/g2/leaf"
+	case "silent":
+		r.Path = "/s/" + pt // the chain completes without writing anything
+	case "redirect":
+		r.Path = "/rd/" + pt
 	}
 	return r
 }
@@ -319,6 +323,11 @@ func buildC05(s *c05Sched) *flamego.Flame {
 			})
 		}, func(c flamego.Context) { s.perturb(c.Param("tok"), 1) })
 	}, func(c flamego.Context) { c.Next() })
+	f.Get("/s/{tok}", func(c flamego.Context, v c05ReqVal) { s.perturb(v.Tok, 1) })
+	f.Get("/rd/{tok}", func(c flamego.Context, v c05ReqVal) {
+		s.perturb(v.Tok, 1)
+		c.Redirect("/u/"+c.Param("tok")+"?inj="+v.Tok, http.StatusSeeOther)
+	})
 	f.Get("/j/{tok}", func(c flamego.Context, r flamego.Render, v c05ReqVal) {
 		s.perturb(v.Tok, 1)
 		r.JSON(201, map[string]string{"tok": c.Param("tok"), "inj": v.Tok, "route": c.Param("route")})
@@ -345,7 +354,7 @@ func c05Serve(f *flamego.Flame, rq c05Req) c05Resp {
 		defer func() { out.pan = recover() }()
 		f.ServeHTTP(spy, req)
 	}()
-	out.status, out.body, out.ctype = spy.status, string(spy.body), spy.h.Get("Content-Type")+"|tag="+strings.Join(spy.h.Values("X-Req-Tag"), ",")+"|etag="+spy.h.Get("ETag")
+	out.status, out.body, out.ctype = spy.status, string(spy.body), spy.h.Get("Content-Type")+"|loc="+spy.h.Get("Location")+"|tag="+strings.Join(spy.h.Values("X-Req-Tag"), ",")+"|etag="+spy.h.Get("ETag")
 	return out
 }
 
@@ -663,7 +672,7 @@ func judgeHammer(w *core.W, c *hammerCase) bool {
 }
 
 func runC05(r *core.Run) {
-	r.Rule("per round one COLD instance (lazy caches unfilled) with routes of every kind (static shortcut, optional static short/long, placeholder, multi-bind regex, match-all with capture, final match-all, header-constrained, Any, named route used for URL building, JSON rendering, a panicking route behind Recovery, custom not-found chain) and Logger+Recovery+Renderer middleware; 84-168 goroutines behind a barrier, the first wave hits every route kind while cold, then few hot routes; every request carries a unique token in a header, the query, a cookie and the body, half of them also in the path - the other half use one of 400 shared path keys, so that paths repeat; an early middleware maps a request-scoped value; handlers reached through Next (fast path) and reflectively echo parameters, `route`, the injected value, a built URL and the body, with seeded yields / sleeps / pairwise rendezvous between reading and writing. Oracles: (1) Go race detector, report blocks with a framework frame counted from the log; (2) byte-for-byte equality (status, body, Content-Type, ETag, response tags) with an identically built instance that served the same requests serially, which in turn equals - for the cold wave and every 32nd request - a fresh instance that serves nothing else; (3) no foreign token in any response; (4) every line the request logger writes carries the request-scoped logger (request id) of the request it is about. Then one hammer instance: 32 goroutines x 60 000 / 300 000 requests over 700 keys and five route kinds with minimal self-describing handlers (each response names the route and parameters of the request it answers). non-trivial = distinct concurrent rounds")
+	r.Rule("per round one COLD instance (lazy caches unfilled) with routes of every kind (static shortcut, optional static short/long, placeholder, multi-bind regex, match-all with capture, final match-all, header-constrained, Any, named route used for URL building, JSON rendering, a panicking route behind Recovery, a route whose chain writes nothing, a redirecting route, custom not-found chain) and Logger+Recovery+Renderer middleware; 84-168 goroutines behind a barrier, the first wave hits every route kind while cold, then few hot routes; every request carries a unique token in a header, the query, a cookie and the body, half of them also in the path - the other half use one of 400 shared path keys, so that paths repeat; an early middleware maps a request-scoped value; handlers reached through Next (fast path) and reflectively echo parameters, `route`, the injected value, a built URL and the body, with seeded yields / sleeps / pairwise rendezvous between reading and writing. Oracles: (1) Go race detector, report blocks with a framework frame counted from the log; (2) byte-for-byte equality (status, body, Content-Type, ETag, response tags) with an identically built instance that served the same requests serially, which in turn equals - for the cold wave and every 32nd request - a fresh instance that serves nothing else; (3) no foreign token in any response; (4) every line the request logger writes carries the request-scoped logger (request id) of the request it is about. Then one hammer instance: 32 goroutines x 60 000 / 300 000 requests over 700 keys and five route kinds with minimal self-describing handlers (each response names the route and parameters of the request it answers). non-trivial = distinct concurrent rounds")
 	r.Assume("happens-before race detection is timing independent for accesses that occur; the shadow history is bounded (4 accesses per word)")
 	r.Race = raceEnabled
 	if !raceEnabled {
